@@ -202,6 +202,14 @@ func (c *Ctx) sym(fr *Frame, call *ast.CallExpr, ce *Callee, args []Value) (stri
 	if ce.Field == R.FCancel && ce.Field != "" {
 		return "cancel", true
 	}
+	if ce.Var != nil && ce.Field == "" && R.FCancel != "" && isNamed(ce.Var.Type(), "context.CancelFunc") {
+		// a local copy of the worker's cancel function (read under the lock)
+		if f := c.P.enclosing(ce.Var.Pos()); f != nil {
+			if ok, n := assignedOnlyFrom(f, ce.Var, func(rhs ast.Expr, idx, cnt int) bool { return selField(f.Info(), rhs) == R.FCancel }); ok && n > 0 {
+				return "cancel", true
+			}
+		}
+	}
 	if fk, m := atomicOp(info, call); fk != "" {
 		switch fk {
 		case R.FInflight:
